@@ -39,6 +39,7 @@ ASSUMPTIONS = ["rows have length >= 1 (the property's domain)"]
 ROW_OPS = ["to_array", "meta", "row_int", "rows", "element", "sum", "any", "all", "unary", "scalar", "column", "col_sum"]
 RAGGED_OPS = ["max", "argmax", "mean", "mean0", "col_counts", "ravel", "concat", "np.sum", "np.mean", "np.max", "col_int", "col_range"]
 MATRIX_OPS = ["any0"]
+HYBRID_OPS = {"to_array", "row_int", "rows", "element", "sum", "any", "all", "unary", "scalar", "col_sum", "max", "argmax", "mean", "mean0", "col_counts", "np.sum", "np.mean", "np.max"}
 
 
 def _gen_input(rng):
@@ -217,6 +218,9 @@ def _build(p):
         ivs = np.array(inp["ivs"])
         rl = RunLength2dArray.from_intervals(ivs[:, 0], ivs[:, 1], inp["L"])
         if p["cls"] == "ragged":
+            if p["f"] in HYBRID_OPS and len(str(inp)) % 2 == 0:
+                # the ragged class built through the (inherited) from_intervals: for the operations that do not address columns
+                return RunLengthRaggedArray.from_intervals(ivs[:, 0], ivs[:, 1], inp["L"])
             dense = np.array(_dense(inp))
             return RunLengthRaggedArray.from_array(dense)
         return rl
